@@ -51,9 +51,10 @@ int mantis_parallel_ecb_init(MantisParallelECB_t *ecb)
     MantisKey_t *ctx;
     if (!ecb)
         return 0;
+    ecb->vtable = 0;
+    ecb->ctx = 0;
     if ((ctx = calloc(1, sizeof(MantisKey_t))) == NULL)
         return 0;
-    ecb->vtable = 0;
     ecb->ctx = ctx;
     ecb->parallel_size = 8 * MANTIS_BLOCK_SIZE;
     if (_skinny_has_vec128())
